@@ -6,8 +6,83 @@ MODELS = make_models('c07')
 REPLAY = MODELS
 
 
+def type_cases():
+    """every node type x every catalogued component model x every service type x 0..2 interfaces"""
+    from fim.user import NodeType, ComponentModelType, ServiceType
+    cases = []
+    for nt in NodeType:
+        for cm in ComponentModelType:
+            cases.append(('node+component', nt.name, cm.name))
+    for st in ServiceType:
+        for cm in ComponentModelType:
+            for nif in (0, 1, 2):
+                cases.append(('service', st.name, cm.name, nif))
+    return cases
+
+
+def eval_types(case):
+    """one or two building calls per case over the FULL type vocabulary; the invariants and views judge every intermediate
+    model, and the model after taking the element away again"""
+    from fim.user import NodeType, ComponentModelType, ServiceType
+    from fimmc import topo
+    m = topo.TopoModel('exp', oracles=('c07',))
+    m.new_topo()
+    t = m.t
+    v = []
+    steps = []
+
+    def judge(what):
+        m._last_ev = (what,)
+        for fp, msg in topo._invariant(m):
+            v.append((fp, f'[{case}] after {what}: {msg}'))
+
+    def step(what, fn):
+        try:
+            fn()
+            steps.append(what + ':ok')
+        except Exception as e:
+            steps.append(what + ':raise')
+            pre = None
+        judge(what)
+    kind = case[0]
+    if kind == 'node+component':
+        nt, cm = NodeType[case[1]], ComponentModelType[case[2]]
+        step('add_node', lambda: t.add_node(name='n1', site='S1', ntype=nt))
+        if 'n1' in m.all_nodes():
+            step('add_component', lambda: m.node('n1').add_component(name='c1', model_type=cm))
+            if 'c1' in m.node('n1').components:
+                step('remove_component', lambda: m.node('n1').remove_component('c1'))
+            step('remove_node', lambda: t.remove_node('n1'))
+    else:
+        st, cm, nif = ServiceType[case[1]], ComponentModelType[case[2]], case[3]
+        ports = []
+        for k in range(nif):
+            n = t.add_node(name=f'n{k}', site=f'S{k}')
+            c = n.add_component(name='c1', model_type=cm)
+            ports += list(c.interface_list)[:1]
+        if len(ports) < nif:
+            return {'v': v, 'nt': None, 'out': 'component-without-ports'}
+        judge('add_nodes')
+        step('add_service', lambda: t.add_network_service(name='s1', nstype=st, interfaces=ports))
+        if 's1' in m.top_services():
+            if ports:
+                step('disconnect', lambda: m.service('s1').disconnect_interface(m.port('n0', ports[0].name)))
+            step('remove_service', lambda: t.remove_network_service('s1'))
+    return {'v': v, 'nt': tuple(case), 'out': '+'.join(steps[:2])}
+
+
+REPLAY['types'] = eval_types
+
+
 def run(report):
     q = report.tier == 'quick'
+    from fimmc.engine import explore_cases
+    g0 = explore_cases(report, 'types', eval_types, type_cases(), chunk=8,
+                       rule='full type vocabulary at depth 1-2: every NodeType x every catalogued component model (add node, add '
+                            'component, remove component, remove node) and every ServiceType x every component model x 0..2 '
+                            'connected ports (add service, disconnect one, remove service); invariants and views after every call')
+    report.require(any(k.startswith('add_service:ok') for k in g0['outcomes']) and any(k.startswith('add_service:raise') for k in g0['outcomes']),
+                   'service types accepted and refused in the type sweep')
     depths = {('exp', 'empty'): 3 if q else 4, ('exp', 'R1'): 2 if q else 3, ('exp', 'R2'): 2 if q else 2, ('exp', 'R3'): 1,
               ('sub', 'S0'): 3 if q else 5, ('sub', 'S1'): 2 if q else 3, ('sub', 'S2'): 2 if q else 3}
     groups = run_topo(report, MODELS, 'c07', depths)
